@@ -188,6 +188,15 @@ func (t *upTr) stmts(list []ast.Stmt, indent int) {
 		return
 	}
 	st, rest := list[0], list[1:]
+	if sw, isSwitch := st.(*ast.SwitchStmt); isSwitch {
+		if is, ok := desugarSwitch(sw); ok {
+			st = is
+			if blk, isBlk := is.(*ast.BlockStmt); isBlk && len(blk.List) == 0 {
+				t.stmts(rest, indent)
+				return
+			}
+		}
+	}
 	switch x := st.(type) {
 	case *ast.ReturnStmt:
 		isNil, isErr := t.isErrReturn(x)
